@@ -81,7 +81,18 @@ struct IdentWorld : World {
 			st.hit(std::string("op:") + OPS[op.kind]);
 			int outcome = 0; bool now_ext;
 			switch (op.kind) {
-			case OP_SET: case OP_SETSTR: {
+			case OP_SET: case OP_SETSTR: if (M[t].kind == 1 && !M[t].b.empty() && (op.c % 5) == 2) {
+				// the new name is a tail of the identifier's own content (the pointer handed in lies inside the identifier or its allocation)
+				size_t k = (size_t) (op.c / 5) % M[t].b.size(); Bytes name(M[t].b.begin() + k, M[t].b.end());
+				bool byStrlen = op.kind == OP_SETSTR && std::find(name.begin(), name.end(), 0) == name.end();
+				const char *own; { Sut su; own = (const char *) mpt_identifier_data(id[t]); }
+				void *r; { Sut su(failn); r = mpt_identifier_set(id[t], own + k, byStrlen ? -1 : (int) name.size()); fired = g.fired; }
+				log.ev("%s %d from its own content at %zu of %zu%s -> %s", OPS[op.kind], t, k, M[t].b.size(), fired ? " allocfail" : "", r ? "ok" : "null");
+				if (!r) { if (!fired) fail("refused-valid", "set from the identifier's own content (%zu bytes at %zu) refused without allocation fault", name.size(), k); }
+				else { M[t].b = name; outcome = 1; }
+				st.hit("probe:set_from_own_content");
+				break;
+			} else {
 				size_t len = pick_len(op, t); if (len > pool.size()) len = pool.size();
 				size_t off = pool.size() - len ? (size_t) op.c % (pool.size() - len + 1) : 0;
 				Bytes name(pool.begin() + off, pool.begin() + off + len);
